@@ -76,6 +76,14 @@ class Ctx:
     def value(self, at, name):
         """(defining value expression, def node) when exactly one plain Assign reaches, else (None, None)."""
         d = self.unique_def(at, name)
+        if d is None:
+            # several definitions that all bind the same attribute path (an alias re-established in a finally block)
+            ds = sorted(self.rd.defs(at, name), key=lambda n: n.id)
+            if len(ds) > 1 and all(x.kind == 'stmt' and isinstance(x.ast, ast.Assign) and len(x.ast.targets) == 1 and
+                                   isinstance(x.ast.targets[0], ast.Name) and x.ast.targets[0].id == name and
+                                   isinstance(x.ast.value, ast.Attribute) for x in ds) and \
+                    len({ast.dump(x.ast.value) for x in ds}) == 1:
+                d = ds[0]
         if d is None or d.kind != 'stmt' or not isinstance(d.ast, ast.Assign) or len(d.ast.targets) != 1:
             return None, None
         t = d.ast.targets[0]
@@ -1356,6 +1364,39 @@ def setter_twins(repo, out):
 
 
 # =========================================================================== C03.gather
+def _helper_cleans(repo, fn, loop, arr):
+    """If the per-column loop hands `arr` to a call: (True, stmt) when the callee (a method of the same class,
+    followed through the MRO) zero-fills `arr` or a view of it, (False, stmt) when the callee cannot be followed,
+    None when `arr` is not passed to any call."""
+    for st in astx.walk_stmts(loop.body):
+        for c in astx.calls(st):
+            pos = [i for i, a in enumerate(c.args) if isinstance(a, ast.Name) and a.id == arr]
+            kws = [k.arg for k in c.keywords if isinstance(k.value, ast.Name) and k.value.id == arr]
+            if not pos and not kws:
+                continue
+            if not (astx.path(astx.receiver(c)) == 'self' and fn.cls is not None):
+                return False, st
+            callee = repo.lookup(fn.rel, fn.cls.name, astx.callee_attr(c))
+            if callee is None:
+                return False, st
+            params = [a.arg for a in callee.node.args.args][1:]
+            pname = kws[0] if kws else (params[pos[0]] if pos[0] < len(params) else None)
+            if pname is None:
+                return False, st
+            views = {pname}
+            for s2 in astx.walk_stmts(callee.node.body):
+                if isinstance(s2, ast.Assign) and isinstance(s2.value, ast.Subscript) and \
+                        isinstance(s2.value.value, ast.Name) and s2.value.value.id == pname:
+                    views |= {t.id for t in s2.targets if isinstance(t, ast.Name)}
+            for s2 in astx.walk_stmts(callee.node.body):
+                if isinstance(s2, ast.Assign) and len(s2.targets) == 1 and isinstance(s2.targets[0], ast.Subscript) and \
+                        isinstance(s2.targets[0].value, ast.Name) and s2.targets[0].value.id in views and \
+                        is_full_slice(s2.targets[0].slice) and isinstance(s2.value, ast.Constant) and s2.value.value == 0:
+                    return True, st
+            return None
+    return None
+
+
 @rule('C03.gather', floor=4)
 def gather(repo, out):
     """Coloured approximations copy, per column of a colour, exactly that column's nonzero rows of the result."""
@@ -1418,6 +1459,12 @@ def gather(repo, out):
                         'previous colour (or uninitialised memory) end up in the decompressed columns', key='gather-clean')
             elif any(z in ibody for z in Z) or ZV:
                 out.ok(fn, (Z + ZV)[-1].ast, 'scratch is clean for every column of a colour')
+            elif _helper_cleans(repo, fn, loop, 'scratch') is not None:
+                verdict, hst = _helper_cleans(repo, fn, loop, 'scratch')
+                if verdict:
+                    out.ok(fn, hst, 'scratch is passed to a helper that clears the slices it consumed: clean for every column')
+                else:
+                    out.unsure(fn, hst, 'scratch is handed to a call that could not be followed: per-column cleanliness not decided')
             else:
                 out.bad(fn, st, 'scratch is cleared once per colour only: rows copied for one column of the colour are still '
                         'set when the next column of the same colour is produced', key='gather-clean')
@@ -3062,6 +3109,10 @@ def applies(repo, out):
                 return f'{p}_none' if isinstance(e.ops[0], ast.Is) else ('not', f'{p}_none')
         if isinstance(e, ast.Name) and e.id == 'has_custom_derivs':
             return 'custom'
+        if isinstance(e, ast.Name) and e.id != 'driver':
+            v, d = cx.value(at, e.id)
+            if isinstance(v, (ast.BoolOp, ast.Compare, ast.UnaryOp)) and d is not None:
+                return boolx.from_ast(v, atom_of)      # a named sub-condition: expand it
         if isinstance(e, ast.Name) and e.id == 'driver' and cx.is_param('driver', at) or \
                 isinstance(e, ast.Name) and e.id == 'driver':
             return 'driver'
@@ -3287,6 +3338,195 @@ def approx_data(repo, out):
     _c12.colored_wrt(repo, _Only(out, 'ApproximationScheme._init_colored_approximations'))
 
 
+# =========================================================================== C03.setter-scope
+@rule('C03.setter-scope', floor=1)
+def setter_scope(repo, out):
+    """The coloured jac setter writes J only at the nonzero positions of the solved index: it never hands the index
+    to a setter that stores a whole row/column (entries of the other partition, or entries still to be corrected by
+    subtraction, would be overwritten)."""
+    fn = repo.func(TJ, '_TotalJacInfo.simul_coloring_jac_setter')
+    cls = fn.cls.name
+    ALLOWED = {'_jac_setter_dist': 'MPI scatter/allreduce of the column/row that was just written'}
+
+    def writes_J(f, depth=0, seen=()):
+        for st in astx.walk_stmts(f.node.body):
+            for t in astx.assigned_targets(st) if isinstance(st, (ast.Assign, ast.AugAssign)) else []:
+                base = t
+                while isinstance(base, ast.Subscript):
+                    base = base.value
+                if astx.path(base) == 'self.J' and isinstance(t, ast.Subscript):
+                    return True
+        if depth >= 3:
+            return False
+        for c in astx.calls(f.node):
+            if astx.path(astx.receiver(c)) == 'self':
+                nm = astx.callee_attr(c)
+                g2 = repo.lookup(f.rel, cls, nm)
+                if g2 is not None and nm not in seen and writes_J(g2, depth + 1, seen + (nm,)):
+                    return True
+        return False
+    offenders = []
+    for c in astx.calls(fn.node):
+        if astx.path(astx.receiver(c)) != 'self':
+            continue
+        nm = astx.callee_attr(c)
+        if nm in ALLOWED:
+            continue
+        g2 = repo.lookup(fn.rel, cls, nm)
+        if g2 is not None and writes_J(g2):
+            offenders.append((c, nm))
+    if offenders:
+        c, nm = offenders[0]
+        out.bad(fn, astx.stmt_of(c), f'the coloured jac setter delegates to {nm}, which stores a whole row/column of the '
+                'jacobian instead of the nonzero positions of this colour: entries owned by the other direction, or fwd/rev '
+                'entries that _apply_subtractions corrects afterwards, are overwritten (subtraction is then applied twice)',
+                key='setter-scope')
+    else:
+        out.ok(fn, fn.node, 'all jacobian writes of the coloured setter are its own map-restricted stores '
+               '(+ the tabled MPI scatter)')
+
+
+# =========================================================================== C03.context
+@rule('C03.context', floor=4)
+def context(repo, out):
+    """_compute_total_coloring_context restores every piece of problem state it sets (randomised subjacs, the
+    computing-coloring flag) on normal AND exceptional exit of the with-body."""
+    fn = repo.func(COL, '_compute_total_coloring_context')
+    cx = Ctx(fn)
+    g = cx.g
+    ys = [n for n in g.nodes if n.kind == 'stmt' and isinstance(n.ast, ast.Expr) and isinstance(n.ast.value, ast.Yield)]
+    if len(ys) != 1:
+        raise AnalysisError(f'{fn.ident}: expected exactly one yield')
+    y = ys[0]
+    before = g.reach([g.entry], avoid=[y], labels=cfgm.noexc)
+    after = g.reach([m for m, _ in g.succ[y]])
+
+    def state_stores(nodes):
+        """resolved access path (local aliases of parameter attributes followed) -> store nodes"""
+        res = {}
+        for n in nodes:
+            if n.kind == 'stmt' and isinstance(n.ast, ast.Assign):
+                for t in astx.assigned_targets(n.ast):
+                    if not isinstance(t, (ast.Attribute, ast.Subscript)):
+                        continue
+                    rp = cx.rpath(t, n)
+                    if rp and '[*]' not in rp and rp.split('.')[0].split('[')[0] in cx.params:
+                        res.setdefault(rp, []).append(n)
+        return res
+    sets = state_stores(before)
+    rest = state_stores(after)
+    if not sets:
+        out.unsure(fn, fn.node, 'no state set before the yield')
+        return
+    for key, ns in sets.items():
+        tgt = key
+        rs = rest.get(key, [])
+        w = g.path([m for m, _ in g.succ[y]], [g.exit, g.raise_exit], avoid=rs)
+        if not rs:
+            out.bad(fn, ns[0].ast, f'{tgt} is set for the sparsity computation and never restored',
+                    key='context-restore')
+            continue
+        if w is not None:
+            exc = any(lab == 'exc' for a, b in zip(w, w[1:]) for m, lab in g.succ[a] if m is b) or w[-1] is g.raise_exit
+            out.bad(fn, rs[0].ast, f'{tgt} is not restored when the with-body ' +
+                    ('raises' if exc else 'finishes on some path') + ': after a failed sparsity computation the problem keeps '
+                    'randomised subjacobians / the computing-coloring flag, later totals are garbage and the colouring is '
+                    'never retried', key='context-restore')
+            continue
+        # a value saved before the yield must be the one written back
+        saved_ok = True
+        seen_ast = set()
+        for r in rs:
+            if id(r.ast) in seen_ast:
+                continue
+            seen_ast.add(id(r.ast))
+            v = r.ast.value
+            if isinstance(v, ast.Name):
+                sv, sd = cx.value(r, v.id)
+                if sv is not None and sd in before and cx.rpath(sv, sd) not in (None, key) and \
+                        isinstance(sv, (ast.Attribute, ast.Subscript)):
+                    saved_ok = False
+                    out.bad(fn, r.ast, f'{tgt} is restored from {v.id}, which saved `{astx.src(sv)}`',
+                            key='context-restore')
+        if saved_ok:
+            out.ok(fn, rs[0].ast, f'{tgt} is restored on normal and exceptional exit')
+
+
+# =========================================================================== C03.load-mirror
+def _alpha(stmts, attr_map):
+    """Structural key of statements up to consistent renaming of local names and the given attribute mapping."""
+    import copy
+    ren = {}
+    out_ = []
+    for st in stmts:
+        st2 = copy.copy(st)
+        parts = []
+        for n in ast.walk(st):
+            if isinstance(n, ast.Name):
+                parts.append(('N', ren.setdefault(n.id, len(ren))))
+            elif isinstance(n, ast.Attribute):
+                parts.append(('A', attr_map.get(n.attr, n.attr)))
+            elif isinstance(n, ast.Constant):
+                parts.append(('C', repr(n.value)))
+            else:
+                parts.append((type(n).__name__,))
+        out_.append(tuple(parts))
+    return tuple(out_)
+
+
+@rule('C03.load-mirror', floor=2)
+def load_mirror(repo, out):
+    """Coloring.load converts the old on-disk group layout [ungrouped, group, group, ...] the same way for the fwd
+    and the rev colouring: each ungrouped index becomes its own colour and exactly the remaining groups follow."""
+    fn = repo.func(COL, 'Coloring.load')
+    blocks = {}
+    for st in astx.walk_stmts(fn.node.body):
+        if isinstance(st, ast.If) and isinstance(st.test, ast.Attribute) and st.test.attr in ('_fwd', '_rev') and \
+                any(isinstance(t, ast.Attribute) and t.attr == st.test.attr
+                    for s2 in st.body for t in astx.assigned_targets(s2)):
+            blocks[st.test.attr] = st
+    if set(blocks) != {'_fwd', '_rev'}:
+        out.unsure(fn, fn.node, 'conversion blocks of the old file layout not found for both directions')
+        return
+    kf = _alpha(blocks['_fwd'].body, {})
+    kr = _alpha(blocks['_rev'].body, {'_rev': '_fwd'})
+    # absolute clause per block: singles from old[k], remaining groups old[k+1:]
+    verdicts = {}
+    for d, blk in blocks.items():
+        single = rest = None
+        for n in walk_body(blk.body):
+            if isinstance(n, ast.ListComp) and isinstance(n.elt, ast.List) and len(n.elt.elts) == 1 and \
+                    isinstance(n.generators[0].iter, ast.Subscript) and isinstance(n.generators[0].iter.slice, ast.Constant):
+                single = n.generators[0].iter
+            if isinstance(n, ast.Call) and astx.callee_attr(n) in ('extend',) and n.args and \
+                    isinstance(n.args[0], ast.Subscript) and isinstance(n.args[0].slice, ast.Slice):
+                rest = n.args[0]
+        if single is None or rest is None:
+            verdicts[d] = None
+            continue
+        lo = rest.slice.lower
+        lo = 0 if lo is None else (lo.value if isinstance(lo, ast.Constant) else None)
+        same_src = ssame(single.value, rest.value) and rest.slice.upper is None and rest.slice.step is None
+        verdicts[d] = (same_src and lo == single.slice.value + 1, single, rest)
+    for d, blk in blocks.items():
+        v = verdicts[d]
+        if v is None:
+            if kf == kr:
+                out.unsure(fn, blk, f'conversion idiom of the {d} block not recognised (blocks are mirror images)')
+            else:
+                out.bad(fn, blk, 'the fwd and rev conversions of the old file layout differ although the layout is the same '
+                        'for both directions', key='load-mirror' + d)
+        elif v[0]:
+            out.ok(fn, blk, f'{d}: ungrouped indices {astx.src(v[1])} become single colours, followed by {astx.src(v[2])}')
+        else:
+            out.bad(fn, astx.stmt_of(v[2]), f'{d}: after turning {astx.src(v[1])} into single colours the loader appends '
+                    f'{astx.src(v[2])}: ' + ('the ungrouped list itself is kept as one more colour, so its indices belong to '
+                                             'two colours and are solved together although they conflict'
+                                             if isinstance(v[2].slice.lower, ast.Constant) and v[2].slice.lower.value == 0
+                                             or v[2].slice.lower is None else 'groups of the file are dropped'),
+                    key='load-mirror' + d)
+
+
 # =========================================================================== self-test
 _SUB_BLOCK = ("                if self.simul_coloring is not None and self.simul_coloring._subtractions:\n"
               "                    self.simul_coloring._apply_subtractions(self.J)\n")
@@ -3338,6 +3578,40 @@ _TOSUB2_NEW = ("                        tosub = [(subr, nzcol) for subr in sprow
                "                                 if subr in color_rows]\n"
                "                        if tosub:\n"
                "                            subtractions.setdefault((subfrom[0], nzcol), []).extend(tosub)\n")
+
+_APPLIES_OLD = ("                if (\n                    driver and\n"
+                "                        ((orig_of is None and orig_wrt is None) or not has_custom_derivs) and\n"
+                "                        (of_indices is None and wrt_indices is None)\n                    ):\n"
+                "                    # we're using driver ofs/wrts\n"
+                "                    if coloring_info is None:\n"
+                "                        self.coloring_info = coloring_info = driver._coloring_info\n")
+_APPLIES_NEW = ("                uses_driver_vois = (orig_of is None and orig_wrt is None) or not has_custom_derivs\n"
+                "                no_sub_indices = of_indices is None and wrt_indices is None\n"
+                "                if driver and uses_driver_vois and no_sub_indices and coloring_info is None:\n"
+                "                    self.coloring_info = coloring_info = driver._coloring_info\n")
+_EXEC_SCATTER_OLD = ("                loc_i = icol - in_slices[in_name].start\n"
+                     "                for out_name in out_names:\n"
+                     "                    key = (out_name, in_name)\n"
+                     "                    if key in partials:\n"
+                     "                        # set the column in the Jacobian entry\n"
+                     "                        part = scratch[out_slices[out_name]]\n"
+                     "                        partials[key][:, loc_i] = part\n"
+                     "                        part[:] = 0.\n")
+_EXEC_SCATTER_NEW = ("                self._scatter_colored_column(partials, scratch, in_name,\n"
+                     "                                             icol - in_slices[in_name].start)\n")
+_EXEC_HELPER = ("    def _scatter_colored_column(self, partials, scratch, in_name, loc_i):\n"
+                "        out_slices = self._out_slices\n"
+                "        for out_name in self._var_rel_names['output']:\n"
+                "            key = (out_name, in_name)\n"
+                "            if key not in partials:\n"
+                "                continue\n"
+                "            part = scratch[out_slices[out_name]]\n"
+                "            partials[key][:, loc_i] = part\n"
+                "            part[:] = 0.\n\n")
+_CTX_OLD = ("    try:\n        yield\n    finally:\n"
+            "        problem._metadata['coloring_randgen'] = None\n        problem._computing_coloring = False\n"
+            "        problem._metadata['randomize_subjacs'] = saved_rand_subjacs\n"
+            "        problem._metadata['randomize_seeds'] = saved_rand_seeds\n")
 
 selftest(
     'C03',
@@ -3714,6 +3988,63 @@ selftest(
            '            if wrt_matches is None or wrt not in wrt_matches:\n                # data is the same', 'C03.approx-data'),
     Twin('approx-data-twin-demorgan-filter', APPROX, '            if wrt_matches is None or wrt in wrt_matches:\n                # data is the same',
          '            if not (wrt_matches is not None and wrt not in wrt_matches):\n                # data is the same'),
+    # ---- second robustness round: named sub-conditions in the adoption guard, scratch clean-up in a helper
+    Twin('applies-twin-named-subconditions', TJ, _APPLIES_OLD, _APPLIES_NEW),
+    Mutant('applies-named-subcondition-or', TJ, _APPLIES_OLD,
+           _APPLIES_NEW.replace('(orig_of is None and orig_wrt is None) or not', '(orig_of is None or orig_wrt is None) or not'),
+           'C03.applies'),
+    Twin('gather-twin-helper-cleanup', EXEC, _EXEC_SCATTER_OLD, _EXEC_SCATTER_NEW,
+         also=[(EXEC, "    def compute_partials(self, inputs, partials):\n", _EXEC_HELPER + "    def compute_partials(self, inputs, partials):\n")]),
+    Mutant('gather-helper-without-cleanup', EXEC, _EXEC_SCATTER_OLD, _EXEC_SCATTER_NEW, 'C03.gather',
+           also=[(EXEC, "    def compute_partials(self, inputs, partials):\n",
+                  _EXEC_HELPER.replace("            part[:] = 0.\n", "") + "    def compute_partials(self, inputs, partials):\n")]),
+    # ---- third seeding round
+    Mutant('setter-scope-single-index-shortcut', TJ,
+           "        row_col_map = self.simul_coloring.get_row_col_map(mode)\n        fwd = mode == 'fwd'\n        dist = self.comm.size > 1\n",
+           "        if len(inds) == 1:\n            self.single_jac_setter(inds[0], mode, meta)\n            return\n\n"
+           "        row_col_map = self.simul_coloring.get_row_col_map(mode)\n        fwd = mode == 'fwd'\n        dist = self.comm.size > 1\n",
+           'C03.setter-scope'),
+    Mutant('setter-scope-scatter-in-loop', TJ, "                J[i, col] = reduced_derivs[col]\n",
+           "                J[i, col] = reduced_derivs[col]\n                self.simple_single_jac_scatter(i, mode)\n", 'C03.setter-scope'),
+    Twin('setter-scope-twin-empty-colour-return', TJ,
+         "        row_col_map = self.simul_coloring.get_row_col_map(mode)\n        fwd = mode == 'fwd'\n        dist = self.comm.size > 1\n",
+         "        if len(inds) == 0:\n            return\n\n"
+         "        row_col_map = self.simul_coloring.get_row_col_map(mode)\n        fwd = mode == 'fwd'\n        dist = self.comm.size > 1\n"),
+    Mutant('context-no-finally', COL, _CTX_OLD,
+           "    yield\n\n    problem._metadata['coloring_randgen'] = None\n    problem._computing_coloring = False\n"
+           "    problem._metadata['randomize_subjacs'] = saved_rand_subjacs\n    problem._metadata['randomize_seeds'] = saved_rand_seeds\n",
+           'C03.context'),
+    Mutant('context-flag-not-restored', COL, "        problem._metadata['coloring_randgen'] = None\n        problem._computing_coloring = False\n",
+           "        problem._metadata['coloring_randgen'] = None\n", 'C03.context'),
+    Mutant('context-restore-swapped', COL, "        problem._metadata['randomize_subjacs'] = saved_rand_subjacs\n        problem._metadata['randomize_seeds'] = saved_rand_seeds\n",
+           "        problem._metadata['randomize_subjacs'] = saved_rand_seeds\n        problem._metadata['randomize_seeds'] = saved_rand_subjacs\n",
+           'C03.context'),
+    Mutant('context-restore-only-on-success', COL, _CTX_OLD,
+           "    try:\n        yield\n    except Exception:\n        raise\n    else:\n"
+           "        problem._metadata['coloring_randgen'] = None\n        problem._computing_coloring = False\n"
+           "        problem._metadata['randomize_subjacs'] = saved_rand_subjacs\n        problem._metadata['randomize_seeds'] = saved_rand_seeds\n",
+           'C03.context'),
+    Twin('context-twin-alias-and-tuple-restore', COL,
+         "    problem._metadata['coloring_randgen'] = np.random.default_rng(41)  # set seed for consistency\n",
+         "    md = problem._metadata\n    md['coloring_randgen'] = np.random.default_rng(41)\n",
+         also=[(COL, "    saved_rand_subjacs = problem._metadata['randomize_subjacs']\n    saved_rand_seeds = problem._metadata['randomize_seeds']\n",
+                "    saved = (md['randomize_subjacs'], md['randomize_seeds'])\n"),
+               (COL, "        problem._metadata['coloring_randgen'] = None\n", "        md['coloring_randgen'] = None\n"),
+               (COL, "        problem._metadata['randomize_subjacs'] = saved_rand_subjacs\n        problem._metadata['randomize_seeds'] = saved_rand_seeds\n",
+                "        md['randomize_subjacs'], md['randomize_seeds'] = saved\n")]),
+    Mutant('context-alias-no-finally', COL,
+           "    problem._metadata['coloring_randgen'] = np.random.default_rng(41)  # set seed for consistency\n",
+           "    md = problem._metadata\n    md['coloring_randgen'] = np.random.default_rng(41)\n", 'C03.context',
+           also=[(COL, _CTX_OLD, "    yield\n\n    md['coloring_randgen'] = None\n    problem._computing_coloring = False\n"
+                  "    md['randomize_subjacs'] = saved_rand_subjacs\n    md['randomize_seeds'] = saved_rand_seeds\n")]),
+    Twin('context-twin-reordered-restores', COL, "        problem._metadata['coloring_randgen'] = None\n        problem._computing_coloring = False\n",
+         "        problem._computing_coloring = False\n        problem._metadata['coloring_randgen'] = None\n"),
+    Mutant('load-rev-keeps-ungrouped-list', COL, 'newgrps.extend(old[1:])', 'newgrps.extend(old[0:])', 'C03.load-mirror', nth=1),
+    Mutant('load-fwd-keeps-ungrouped-list', COL, 'newgrps.extend(old[1:])', 'newgrps.extend(old[0:])', 'C03.load-mirror', nth=0),
+    Mutant('load-rev-drops-group', COL, 'newgrps.extend(old[1:])', 'newgrps.extend(old[2:])', 'C03.load-mirror', nth=1),
+    Twin('load-twin-renamed-local', COL,
+         "                old = coloring._rev[0]\n                newgrps = [[c] for c in old[0]]\n                newgrps.extend(old[1:])\n",
+         "                prev = coloring._rev[0]\n                newgrps = [[r] for r in prev[0]]\n                newgrps.extend(prev[1:])\n"),
     Twin('coords-twin-renamed', COL, "    nzrows, nzcols = J.row, J.col\n    col_groups = _get_full_disjoint_cols(J)",
          "    nzrows, nzcols = J.row, J.col\n    col_groups = _get_full_disjoint_col_matrix_cols(_2col_adj_rows_cols(J))"),
 )
